@@ -218,6 +218,9 @@ def gen_case(rng, tier, index):
         "path_kind": rng.choice(["str", "path", "str", "path", "relative"]),
         "name": rng.choice(BAD_NAMES if mode.startswith("badname") else GOOD_NAMES),
     }
+    if case["path_kind"] == "relative" and not mode.startswith("badname") and rng.random() < 0.3:
+        # bare names that begin with a character the shell / pathlib give a meaning to elsewhere
+        case["name"] = rng.choice(["~scratch.gwl", "~$plan.gwl", "-out.gwl", "#1.gwl", "$HOME.gwl"])
     if mode == "save_twice":
         case["ops2"] = _gen_ops(rng, cls, diti, rng.choice([0, 0, 1, 3, 10]))
     if mode == "with_preloaded":
@@ -235,6 +238,10 @@ def gen_case(rng, tier, index):
 # ---------------------------------------------------------------------------------------------
 # building worklists through the real API
 # ---------------------------------------------------------------------------------------------
+class CannotCreate(Exception):
+    """A worklist with a legal .gwl file name could not even be constructed."""
+
+
 class _Bench:
     """Worklist + labware of one build."""
 
@@ -242,7 +249,12 @@ class _Bench:
         import robotools
 
         cls = {"base": robotools.BaseWorklist, "evo": robotools.EvoWorklist, "fluent": robotools.FluentWorklist}[case["cls"]]
-        self.wl = cls(filepath, max_volume=950, auto_split=True, diti_mode=bool(case.get("diti_mode")))
+        try:
+            self.wl = cls(filepath, max_volume=950, auto_split=True, diti_mode=bool(case.get("diti_mode")))
+        except Exception as e:
+            if filepath is not None and not str(case.get("mode", "")).startswith("badname"):
+                raise CannotCreate(repr(e)) from e
+            raise
         self.src = robotools.Labware("SrcPlate", 8, 12, min_volume=0, max_volume=1e7, initial_volumes=5e6)
         self.dst = robotools.Labware("DstPlate", 8, 12, min_volume=0, max_volume=1e7, initial_volumes=1e3)
 
@@ -422,7 +434,12 @@ def run_case(ctx, case):
         if case.get("path_kind") == "relative":
             os.chdir(base)
             ctx.count("path:bare_relative_name")
-        _run(ctx, case, base, att)
+        try:
+            _run(ctx, case, base, att)
+        except CannotCreate as e:
+            ctx.case(case, True)
+            ctx.check("worklist_with_gwl_file_name_can_be_created", False,
+                      lambda: {"name": case.get("name"), "path_kind": case.get("path_kind"), "raised": str(e)})
     finally:
         os.chdir(cwd)
         _cleanup_dir(base)
